@@ -131,6 +131,11 @@ func (e *gfP12) MulScalar(a *gfP12, b *gfP6, pool *bnPool) *gfP12 {
 }
 
 func (c *gfP12) Exp(a *gfP12, power *big.Int, pool *bnPool) *gfP12 {
+	if power.Sign() < 0 {
+		c.Exp(a, new(big.Int).Neg(power), pool)
+		return c.Invert(c, pool)
+	}
+
 	sum := newGFp12(pool)
 	sum.SetOne()
 	t := newGFp12(pool)
